@@ -21,13 +21,13 @@ from engine.common import DISCHARGED, REFUTED, UNKNOWN, Unit, conformance_unit, 
 
 PID = "C06"
 KINDS = ["Diag", "ConstantDiag", "Identity", "Root", "CholLower", "CholUpper", "Dense", "ConstantMulRoot", "BatchRepeatDiag"]
-METHODS = ["cholesky", "cholesky_upper", "root_decomposition", "root_inv_decomposition", "symeig", "svd"]
+METHODS = ["cholesky", "cholesky_upper", "root_decomposition", "symeig", "svd"]  # (root_inv_decomposition goes through triangular solves: inverse reasoning, bounded tier)
 # (kind, method) cells outside the closed-form / leaf scope
 SKIP = {("Root", "cholesky"), ("Root", "cholesky_upper"), ("Root", "root_inv_decomposition"), ("Root", "symeig"), ("Root", "svd"),
         ("CholLower", "symeig"), ("CholLower", "svd"), ("CholUpper", "symeig"), ("CholUpper", "svd"),
         ("Dense", "symeig"), ("Dense", "svd"), ("Dense", "root_inv_decomposition"),
         ("ConstantMulRoot", "cholesky"), ("ConstantMulRoot", "cholesky_upper"), ("ConstantMulRoot", "root_inv_decomposition"), ("ConstantMulRoot", "symeig"), ("ConstantMulRoot", "svd"),
-        ("BatchRepeatDiag", "symeig"), ("BatchRepeatDiag", "svd")}
+        ("BatchRepeatDiag", "symeig"), ("BatchRepeatDiag", "svd"), ("BatchRepeatDiag", "root_decomposition")}
 
 
 def _build(kind, br):
@@ -99,6 +99,10 @@ def check(kind, br, method):
         Dm = spec.D(op)
         c.assume(Dm.shape[-1] == Dm.shape[-2])
         n = Dm.shape[-1]
+        if kind == "Dense":  # the Cholesky route (n <= max_cholesky_size); above it the root is a Lanczos root (C09, bounded tier)
+            from linear_operator import settings
+
+            c.assume(n <= settings.max_cholesky_size.value())
         nb = len(Dm.shape) - 2
         b = tuple(z3.Int(c.fresh_name(f"b{t}!f")) for t in range(nb))
         i, l = z3.Int(c.fresh_name("i!f")), z3.Int(c.fresh_name("l!f"))
